@@ -345,11 +345,16 @@ def c15_r3_iter(ctx, rule="C15.R3"):
     ok = len(calls) == 1 and q.shape(q.arg_expr(b, calls[0][1], 1)) == "arg1.idx"
     ctx.check(ok, rule, fn, "get_line(self.idx)", "the iterator asks for line self.idx")
     # idx advanced only on Some
+    advs = []
     for bi, si, s, is_term in b.locations():
         if not is_term and s["k"] == "assign" and s["place"]["p"] and s["place"]["p"][-1].get("n") == "idx":
+            advs.append(bi)
             sh = q.shape(b.expr_of_rvalue(s["rv"]))
             ctx.check(sh == "Add(1,arg1.idx)", rule, fn, "idx+=1", "the index advances by one", ctx.site(b, bi, si))
             ctx.check(has_fact(b, bi, {}, *opt_fact("some", "SourceView::get_line(*)")), rule, fn, "idx:on-some", "... only after a line was returned", ctx.site(b, bi, si))
+    somes = [site[0] for sh, site, _ in q.def_shapes(b, 0, {}) if sh.startswith("Option::Some{") or sh.startswith("some(") or "get_line" in sh and not sh.startswith("Option::None")]
+    somes = [site[0] for sh, site, _ in q.def_shapes(b, 0, {}) if sh != "Option::None{}" and not sh.startswith("FromResidual")]
+    ctx.check(len(advs) == 1 and bool(somes) and all(b.dominates(advs[0], x) or advs[0] == x for x in somes), rule, fn, "idx:advances", "every returned line advances the index (each line is yielded once)")
     b2 = ctx.body(LINE_COUNT)
     calls = q.calls_to(b2, GET_LINE)
     ok = len(calls) == 1 and q.shape(q.arg_expr(b2, calls[0][1], 1)) in ("Not(0)", "4294967295")
